@@ -296,10 +296,92 @@ def run_fmt(case, agg):
            if case["cols"] == 7 and case["tab"] and case["nol"] else None)
 
 
+# -- the real CLI ---------------------------------------------------------------------------------------------
+
+def cli_cases(tier):
+    out = [{"cmd": "keys", "args": a} for a in ([], ["--type", "ed25519"], ["--type", "secp384r1", "--encoding", "der"], ["--encoding", "pem", "--private-format", "pkcs8", "--public-format", "default", "--encryption", "none"])]
+    out += [{"cmd": "convert", "key": k, "args": a} for k in (["p256", 43], ["p521", 1], ["ed25519", 3]) for a in (
+        [], ["--columns-count", "3"], ["--indentation-count", "0"], ["--indentation-tab", "--indentation-count", "1"], ["--no-length"], ["--no-const"],
+        ["--array-type", "unsigned char", "--array-name", "pub_key", "--length-type", "unsigned int", "--length-name", "pub_key_len"],
+        ["--header-file", "HEADER", "--footer-file", "FOOTER"])]
+    return out
+
+
+def run_cli(case, agg):
+    from .. import impl
+    with fresh_dir("c15cli") as d:
+        if case["cmd"] == "keys":
+            prefix = os.path.join(d, "key")
+            rc, so, se = impl.cli(["keys", "--output-file", prefix] + case["args"], d)
+            if rc != 0:
+                agg.viol("C15:cli/keys-failed", f"{case}: rc={rc} {se[-300:]}")
+                return
+            a = case["args"]
+            enc_ = a[a.index("--encoding") + 1] if "--encoding" in a else "pem"            # documented defaults
+            typ = a[a.index("--type") + 1] if "--type" in a else "secp256r1"
+            try:
+                pb, ub = open(f"{prefix}_priv.{enc_}", "rb").read(), open(f"{prefix}_pub.{enc_}", "rb").read()
+                priv = serialization.load_pem_private_key(pb, None) if enc_ == "pem" else serialization.load_der_private_key(pb, None)
+                pub = serialization.load_pem_public_key(ub) if enc_ == "pem" else serialization.load_der_public_key(ub)
+            except Exception as e:
+                agg.viol("C15:cli/keys-files", f"{case}: {type(e).__name__}: {e}")
+                return
+            cls, bits = TYPE_CLASS[typ]
+            spki = lambda k: k.public_bytes(serialization.Encoding.DER, serialization.PublicFormat.SubjectPublicKeyInfo)       # noqa
+            if not isinstance(priv, cls) or (bits and priv.key_size != bits) or spki(priv.public_key()) != spki(pub):
+                agg.viol("C15:cli/keys-pair", f"{case}: wrong type or the files do not belong together")
+                return
+        else:
+            kind, sd = case["key"]
+            priv = ec.derive_private_key(sd, CURVES[kind][0]) if kind in CURVES else ed_key(kind, sd)
+            inp, out = os.path.join(d, "k.pem"), os.path.join(d, "k.c")
+            open(inp, "wb").write(priv.private_bytes(serialization.Encoding.PEM, serialization.PrivateFormat.PKCS8, serialization.NoEncryption()))
+            args = list(case["args"])
+            for i, a in enumerate(args):
+                if a in ("HEADER", "FOOTER"):
+                    f = os.path.join(d, a.lower() + ".txt")
+                    open(f, "w").write("/* license */\n#ifndef K_H\n" if a == "HEADER" else "#endif\n")
+                    args[i] = f
+            rc, so, se = impl.cli(["convert", "--input-file", inp, "--output-file", out] + args, d)
+            if rc != 0:
+                agg.viol("C15:cli/convert-failed", f"{case}: rc={rc} {se[-300:]}")
+                return
+            text = open(out, encoding="utf-8").read()
+            a = case["args"]
+            name = a[a.index("--array-name") + 1] if "--array-name" in a else "key_buf"
+            got, problems, _ = parse_c(text, array_name=name)
+            want = expected_public(priv)
+            if problems or got != want:
+                agg.viol("C15:cli/convert-bytes", f"{case}: array {None if got is None else len(got)} bytes vs {len(want)}; {problems}")
+                return
+            checks = []
+            if "--no-length" in a:
+                checks.append(("sizeof(" not in text, "--no-length ignored"))
+            else:
+                checks.append((f"sizeof({name})" in text, "length variable is not sizeof(array)"))
+            checks.append((("const " not in text) == ("--no-const" in a), "--no-const not honoured"))
+            if "--columns-count" in a:
+                checks.append((max(len(re.findall("0x", l)) for l in text.splitlines()) == 3, "--columns-count not honoured"))
+            if "--indentation-tab" in a:
+                checks.append((all(l.startswith("\t0x") for l in text.splitlines() if "0x" in l), "--indentation-tab not honoured"))
+            if "--indentation-count" in a and "--indentation-tab" not in a:
+                checks.append((all(l.startswith("0x") for l in text.splitlines() if "0x" in l), "--indentation-count 0 not honoured"))
+            if "--array-type" in a:
+                checks.append(("unsigned char pub_key[]" in text and "unsigned int pub_key_len = (unsigned int) sizeof(pub_key);" in text, "custom names/types not honoured"))
+            if "--header-file" in a:
+                checks.append((text.startswith("/* license */") and text.rstrip().endswith("#endif"), "header/footer not included"))
+            bad = [m for ok_, m in checks if not ok_]
+            if bad:
+                agg.viol("C15:cli/convert-options", f"{case}: {bad}")
+                return
+    agg.ok(h8("c15cli", case), f"ok:cli:{case['cmd']}", sample=case if case["args"] and case["args"][0] == "--array-type" else None)
+
+
 def plan(tier):
     return [
         CaseStage("keys", lambda: keys_cases(tier), run_keys, rule="type x encoding x private format x public format x 3"),
         CaseStage("convert-nist-scalars", lambda: scalar_cases(tier), run_scalars, chunk=1, rule="d = 1..N per curve + leading-zero table"),
         CaseStage("convert-ed", lambda: ed_cases(tier), run_ed, chunk=1, rule="Ed25519/Ed448 from seeds 0..255"),
+        CaseStage("cli", lambda: cli_cases(tier), run_cli, rule="real CLI: keys with default / explicit options; convert with every option"),
         CaseStage("convert-formatting", lambda: fmt_cases(tier), run_fmt, disjoint=True, rule="columns x indent x tab x no-length x no-const x length type"),
     ]
